@@ -16,7 +16,11 @@
 
 package cluster
 
-import "github.com/tikv/pd/server/core"
+import (
+	"time"
+
+	"github.com/tikv/pd/server/core"
+)
 
 // VerifGate, when set by a verification harness, is called at named points of the cluster code
 // (it may block to realise a chosen interleaving).
@@ -35,3 +39,7 @@ func (c *RaftCluster) VerifProcessRegionHeartbeat(region *core.RegionInfo) error
 
 // VerifCheckStores exports checkStores (the background job that buries empty offline stores).
 func (c *RaftCluster) VerifCheckStores() { c.checkStores() }
+
+// VerifSetBackgroundJobInterval sets the period of the cluster's background jobs (checkStores, ...) for
+// clusters started afterwards, so that a harness can run them at chosen points only.
+func VerifSetBackgroundJobInterval(d time.Duration) { backgroundJobInterval = d }
